@@ -14,7 +14,7 @@ WORKERS = int(os.environ.get("VERIF_WORKERS", "16"))
 
 # (batches, runs per batch) at the default budget
 PLAN = {
-    "C12": {"quick": (112, 20), "thorough": (4800, 30)},
+    "C12": {"quick": (112, 20), "thorough": (1600, 30)},
     "C06": {"quick": (448, 12), "thorough": (9600, 16)},
     "C08": {"quick": (320, 10), "thorough": (8000, 14)},
 }
